@@ -161,13 +161,12 @@ struct Ctx {
     }
     // Record that this case is non-trivial by the property's rule; sig identifies it up to "distinctness".
     void nontrivial(const std::string& signature) {
+        if (was_nontrivial) return;      // one signature per case: distinct_nontrivial counts cases, never more than were evaluated
+        was_nontrivial = true;
         uint64_t h = fnv(signature, fnv(section, strlen(section)));
         rt().sigs.insert(h);
-        if (!was_nontrivial) {
-            was_nontrivial = true;
-            std::vector<std::string>& s = rt().samples[section];
-            if (s.size() < 2 && desc) s.push_back(desc());
-        }
+        std::vector<std::string>& s = rt().samples[section];
+        if (s.size() < 2 && desc) s.push_back(desc());
     }
     void count(const std::string& name, uint64_t n = 1) { rt().counters[name] += n; }
     // free-form observation for an offline (python) oracle
